@@ -5,6 +5,7 @@ import NeumannModel.Paths.MstProofs
 import NeumannModel.Paths.TriangleProofs
 import NeumannModel.Paths.KCoreProofs
 import NeumannModel.Paths.SccProofs
+import NeumannModel.Paths.BiconProofs
 import NeumannModel.Paths.NeighborsProofs
 import NeumannModel.Paths.VarProofs
 import NeumannModel.Paths.AStarCfgProofs
@@ -14,8 +15,8 @@ import NeumannModel.Paths.AStarCfgProofs
   triangle algorithms agree with their textbook definitions on the same graph").
 
   Everything is stated over the model of `AlgoModel.lean` (union-find with rank and path compression,
-  Kruskal, lazy-heap core peeling, forward triangle count, recursive Tarjan — mirrored from the Rust
-  branch by branch) and
+  Kruskal, lazy-heap core peeling, forward triangle count, recursive Tarjan, low-link DFS for cut
+  vertices and bridges — mirrored from the Rust branch by branch) and
   the declarative notions of `AlgoSpec.lean`, for EVERY graph; hypotheses are only the engine's own
   invariants where a statement needs them (`NodesUnique`: node ids are unique).
 -/
@@ -263,6 +264,29 @@ theorem scc_exact (g : Graph) (etype : Option Nat) (hn : NodesUnique g) (c : Lis
 /-- non-vacuity: the directed cycle 1→2→3→1 with the tail 3→4 and the undirected edge 4—5 of type 1 -/
 example : sccComponents tjExG none = [[5, 4], [3, 2, 1]] ∧ sccComponents tjExG (some 0) = [[4], [3, 2, 1], [5]] := by
   rw [sccComponents_eq_F, sccComponents_eq_F]; decide
+
+/-! ### articulation_points / bridges (low-link DFS on the simple undirected view) -/
+
+/-- `x` is reported exactly when it is a cut vertex: two other nodes of its component are separated
+    once `x` is removed (includes fuel adequacy of the recursion) -/
+theorem ap_exact (g : Graph) (etype : Option Nat) (hn : NodesUnique g) (x : Nat) :
+    x ∈ articulationPoints g etype ↔ IsArticulation g etype x :=
+  Neumann.Paths.ap_exact g etype hn x
+
+/-- the pair `(a, b)`, smaller id first, is reported exactly when `a` and `b` are adjacent and become
+    disconnected without that adjacency (simple-graph view: parallel edges between them count as one) -/
+theorem bridges_exact (g : Graph) (etype : Option Nat) (hn : NodesUnique g) (a b : Nat) :
+    (a, b) ∈ bridgePairs g etype ↔ (a < b ∧ IsBridgePair g etype a b) :=
+  Neumann.Paths.bridges_exact g etype hn a b
+
+/-- no pair is reported twice -/
+theorem bridges_nodup (g : Graph) (etype : Option Nat) (hn : NodesUnique g) : (bridgePairs g etype).Nodup :=
+  Neumann.Paths.bridges_nodup g etype hn
+
+/-- non-vacuity: the path 1—2—3 with the triangle 3—4—5—3; two nodes joined only by parallel edges -/
+example : articulationPoints bcExG none = [2, 3] ∧ bridgePairs bcExG none = [(2, 3), (1, 2)] ∧
+    bridgePairs bcExP none = [(1, 2)] ∧ articulationPoints bcExP none = [] := by
+  rw [bc_articulationPoints_eq_F, bc_bridgePairs_eq_F, bc_bridgePairs_eq_F, bc_articulationPoints_eq_F]; decide
 
 /-! ### kcore_decomposition (peeling with a lazy min-heap) -/
 
